@@ -328,6 +328,12 @@ func (op HeapOp) src() string {
 		return set(fmt.Sprintf("(stable-sort %s %s)", less, v(op.A)))
 	case "sort-key":
 		return set(fmt.Sprintf("(stable-sort < %s (lambda (x) %s))", v(op.A), fp("(- 0 x)")))
+	case "sort-str":
+		cmp := "string<"
+		if op.Desc {
+			cmp = "string>"
+		}
+		return set(fmt.Sprintf("(stable-sort %s %s)", cmp, v(op.A)))
 	}
 	return "()"
 }
@@ -468,6 +474,16 @@ func (h *heap) valid(op HeapOp) bool {
 		return true
 	case "sort", "sort-key":
 		return isSeqV(a) && allInts(a.obj)
+	case "sort-str":
+		if !isSeqV(a) || a.obj.n == 0 {
+			return false
+		}
+		for _, c := range a.obj.cells() {
+			if c.k != hStr {
+				return false
+			}
+		}
+		return true
 	}
 	return false
 }
@@ -499,7 +515,7 @@ func (h *heap) outSize(op HeapOp) int {
 		return n(a) + len(op.Elems)
 	case "cons", "insert-index", "insert-sorted":
 		return n(a) + 1
-	case "reverse", "map-inc", "select", "reject", "sort", "sort-key":
+	case "reverse", "map-inc", "select", "reject", "sort", "sort-key", "sort-str":
 		return n(a)
 	case "zip":
 		return 2 * min(n(a), n(b))
@@ -707,6 +723,15 @@ func (h *heap) apply(op HeapOp, callbackFailed bool) {
 		res = a
 	case "append-bytes":
 		res = hval{k: hRef, obj: &hobj{kind: oBytes, b: append(append([]byte(nil), a.obj.b...), []byte(op.Key)...)}}
+	case "sort-str":
+		cs := a.obj.cells()
+		sort.SliceStable(cs, func(i, j int) bool {
+			if op.Desc {
+				return cs[i].s > cs[j].s
+			}
+			return cs[i].s < cs[j].s
+		})
+		res = a
 	case "sort", "sort-key":
 		cs := a.obj.cells()
 		desc := op.Desc || op.Kind == "sort-key"
@@ -749,6 +774,10 @@ func (heapEngine) Gen(r *Rand, tier string) any {
 	}
 	n := r.Range(8, 40)
 	keys := []string{"\"k1\"", "'k1", "\"k2\"", "'k2", ":k1", "'k3", "\"k3\"", ":k2"}
+	if r.Chance(1, 3) {
+		// maps whose keys are all written as strings: their key lists can be sorted as strings
+		keys = []string{"\"k1\"", "\"k2\"", "\"k3\"", "\"k4\"", "\"k0\""}
+	}
 	elem := func() string {
 		if r.Chance(1, 3) {
 			return fmt.Sprintf("v%d", r.Intn(heapVars))
@@ -773,7 +802,7 @@ func (heapEngine) Gen(r *Rand, tier string) any {
 	}
 	kinds := []string{"list", "vector", "map", "bytes", "mkseq", "alias", "slice", "slice", "cdr", "rest", "append", "append", "cons", "reverse",
 		"map-inc", "select", "reject", "zip", "insert-index", "insert-sorted", "concat", "assoc", "dissoc", "keys", "nth", "get", "length",
-		"assoc!", "assoc!", "dissoc!", "append!", "append!", "append!", "append-bytes!", "append-bytes", "slice-bytes", "append!-bytes", "sort", "sort", "sort", "sort-key"}
+		"assoc!", "assoc!", "dissoc!", "append!", "append!", "append!", "append-bytes!", "append-bytes", "slice-bytes", "append!-bytes", "sort", "sort", "sort", "sort-key", "sort-str", "sort-str", "keys"}
 	for len(c.Ops) < n {
 		// repair: a backing left in unknown order is re-sorted next
 		var op HeapOp
@@ -804,6 +833,47 @@ func (heapEngine) Gen(r *Rand, tier string) any {
 			ok := false
 			for try := 0; try < 30 && !ok; try++ {
 				op = HeapOp{Kind: PickStr(r, kinds), Dst: r.Intn(heapVars), A: r.Intn(heapVars), B: r.Intn(heapVars), Type: PickStr(r, []string{"list", "vector"})}
+				// prefer an operand of the right kind when one exists
+				want := func(pred func(hval) bool) {
+					var cands []int
+					for vi, v := range h.vars {
+						if pred(v) {
+							cands = append(cands, vi)
+						}
+					}
+					if len(cands) > 0 && r.Chance(3, 4) {
+						op.A = cands[r.Intn(len(cands))]
+					}
+				}
+				isKind := func(k okind) func(hval) bool {
+					return func(v hval) bool { return v.k == hRef && v.obj.kind == k }
+				}
+				switch op.Kind {
+				case "sort-str":
+					want(func(v hval) bool {
+						if !isSeqV(v) || v.obj.n < 2 {
+							return false
+						}
+						for _, c := range v.obj.cells() {
+							if c.k != hStr {
+								return false
+							}
+						}
+						return true
+					})
+				case "sort", "sort-key", "map-inc", "select", "reject", "insert-sorted":
+					want(func(v hval) bool { return isSeqV(v) && v.obj.n >= 2 && allInts(v.obj) })
+				case "keys", "get", "assoc", "assoc!", "dissoc", "dissoc!":
+					want(isKind(oMap))
+				case "append!":
+					want(isKind(oVec))
+				case "append-bytes!", "append-bytes", "slice-bytes", "append!-bytes":
+					want(isKind(oBytes))
+				case "slice", "rest", "reverse", "append", "nth", "concat", "zip", "insert-index":
+					want(isSeqV)
+				case "cdr", "cons":
+					want(isKind(oList))
+				}
 				a := h.vars[op.A]
 				switch op.Kind {
 				case "list":
@@ -856,7 +926,7 @@ func (heapEngine) Gen(r *Rand, tier string) any {
 					if isSeqV(a) && a.obj.n > 0 {
 						op.I = r.Intn(a.obj.n)
 					}
-				case "sort":
+				case "sort", "sort-str":
 					op.Desc = r.Bool()
 				}
 				switch op.Kind {
@@ -1036,7 +1106,7 @@ func (heapEngine) Run(ci any, st *Stats) *Violation {
 }
 
 func isMutating(k string) bool {
-	return strings.HasSuffix(k, "!") || k == "sort" || k == "sort-key" || k == "append!-bytes"
+	return strings.HasSuffix(k, "!") || k == "sort" || k == "sort-key" || k == "sort-str" || k == "append!-bytes"
 }
 
 func (h *heap) touchesUnknown(v hval) bool {
